@@ -39,7 +39,10 @@ def gen_cases(ctx):
                             "proto": rng.choice(["out.nc", "out.nc", "run_04.nc", "a_b_007.nc", "x_99.nc", "ladim_2020_000.nc", "run10_010.nc", "r__1.nc", "t_0_00.nc",
                                                  "out.v2.nc", "run.2000-01_07.nc", "a.b.c_1.nc"]),
                             "rem": rng.choice([0, 0, 0, 250]), "ref": rng.choice([None, None, -946684800, 10**9]),
-                            "dt": [600, 300, 1200, 200][len(out) % 4]})
+                            "dt": [600, 300, 1200, 200, 43200][len(out) % 5],
+                            # the output period as an int of seconds, a numpy timedelta or a datetime.timedelta (with the
+                            # half-day step: periods of a day and more, days and seconds apart in a datetime.timedelta)
+                            "pspell": ["int", "td64", "tdelta"][(len(out) // 5) % 3]})
     for N, p, numrec in ([(5, 2, 0), (5, 2, 2), (7, 3, 2), (6, 2, 3), (4, 1, 4), (1, 3, 1)] if ctx.quick else
                          [(rng.randint(1, 20), rng.randint(1, 6), rng.randint(0, 4)) for _ in range(40)]):
         out.append({"k": "main", "N": N, "p": p, "numrec": numrec, "layout": rng.choice(["sparse", "dense"]),
@@ -112,7 +115,9 @@ def eval_case(desc, ctx):
         mods = {"time": tk, "state": st, "grid": None}
         out = None
         try:
-            out = Output(mods, d / desc["proto"], p * DT, ivars, pv, layout=desc["layout"], numrec=numrec)
+            import datetime
+            period = {"int": p * DT, "td64": np.timedelta64(p * DT, "s"), "tdelta": datetime.timedelta(seconds=p * DT)}[desc.get("pspell", "int")]
+            out = Output(mods, d / desc["proto"], period, ivars, pv, layout=desc["layout"], numrec=numrec)
             for _ in range(tk.Nsteps):
                 tk.update()
                 out.update()
